@@ -1,0 +1,14 @@
+//go:build verif
+
+package statecache
+
+// VerifYield, when set by a verification harness, is called at every scheduling
+// point of the lock-free lookup path and of commit (before each access to the
+// shared cache maps), so that the harness scheduler can choose the interleaving.
+var VerifYield func(site string)
+
+func verifYield(site string) {
+	if VerifYield != nil {
+		VerifYield(site)
+	}
+}
